@@ -110,11 +110,9 @@ def main():
         crate.add_case(c["case"], render(c))
 
     def main_fn(live):
-        lines = []
-        for cid in live:
-            stem = crate.cases[cid]
-            lines.append(f'    {{ let (a, b) = cases::{stem}::run(); println!("{{{{\\"case\\":\\"{cid}\\",\\"via_trait\\":{{:?}},\\"direct\\":{{:?}}}}}}", a, b); }}')
-        return "\n".join(lines)
+        rows = ",\n".join(f'        ("{cid}", cases::{crate.cases[cid]}::run as fn() -> (Vec<i32>, Vec<i32>))' for cid in live)
+        return ("    let table: &[(&str, fn() -> (Vec<i32>, Vec<i32>))] = &[\n" + rows + "\n    ];\n"
+                '    for (id, f) in table { let (a, b) = f(); println!("{{\\"case\\":\\"{}\\",\\"via_trait\\":{:?},\\"direct\\":{:?}}}", id, a, b); }')
 
     dump = os.path.join(chk.work, "dump")
     dropped, first_dump, iters = crate.build(mode="build", dump=dump, main_fn=main_fn)
